@@ -99,6 +99,11 @@ def make_objects(recipe):
         if d.get('constraints'):
             kw['constraints'] = [cons[i] for i in d['constraints']]
         fi = ResultFieldInfo(d['fields']) if d.get('fields') else None
+        if d.get('field_types'):
+            # typed fields: {"name": "int"|"str"|"float"|None, ...} (ordered)
+            types = {'int': int, 'str': str, 'float': float, None: None}
+            fi = ResultFieldInfo({k: types[v]
+                                  for k, v in d['field_types'].items()})
         pats = d['patterns'] if len(d['patterns']) != 1 else d['patterns'][0]
         return SearchDef(pats, tag=d.get('tag'), hint=d.get('hint'),
                          store_result_contents=d.get('store', True),
@@ -181,6 +186,17 @@ def _execute(recipe):
         for name, text in (run.get('append') or {}).items():
             with open(os.path.join(base, name), 'ab') as f:
                 f.write(text.encode('latin-1'))
+        rep = run.get('replace')
+        if rep:
+            import gzip as _gz
+            spec = rep.get('_gz')
+            for name, text in rep.items():
+                if name == '_gz':
+                    continue
+                raw = text.encode('latin-1')
+                with open(os.path.join(base, name), 'wb') as f:
+                    f.write(raw if spec is None else _gz.compress(
+                        raw, compresslevel=spec.get('level', 6)))
         if fs is None or run.get('new_searcher', True):
             g = run.get('global')
             fs = FileSearcher(
@@ -202,7 +218,13 @@ def _execute(recipe):
             res = fs.run()
             one['results'] = canon_results(res, defs, base)
             one['len'] = len(res)
-            one['stats'] = dict(fs.stats)
+            one['stats'] = {k: (list(v) if isinstance(v, list) else v)
+                            for k, v in dict(fs.stats).items()}
+            # an application aggregating statistics over runs (must not
+            # influence later runs)
+            from searchkit.task import SearchTaskStats
+            agg = SearchTaskStats()
+            agg.update(fs.stats)
         except BaseException as exc:  # noqa
             if isinstance(exc, (KeyboardInterrupt, SystemExit)):
                 raise
